@@ -24,35 +24,36 @@ theorem clz32_pos {y : Int} (h0 : 0 < y) :
   · have := @Nat.lt_log2_self n
     exact_mod_cast this
 
-/-- `divi` once the normalisation shift `z` is known; `x2` is the rounded-down divisor -/
-theorem divi_of_z {y x : Int} {z : Nat} (hz : min ((clz 32 y : Nat) : Int) 15 = z) (hz15 : z ≤ 15)
-    (hy : 0 ≤ y) (hyx : y ≤ x) (hy1 : y * 2 ^ z < 2 ^ 32) (hx1 : x + (2 ^ (15 - z) - 1) < 2 ^ 32)
-    (hq : y * 2 ^ z / ((x + (2 ^ (15 - z) - 1)) / 2 ^ (16 - z)) < 2 ^ 17) :
-    divi .checked y x =
+/-- `divi` (either build mode) once the normalisation shift `z` is known; the divisor is rounded down, the
+    quotient clamped to `2^16` -/
+theorem divi_of_z (m : Mode) {y x : Int} {z : Nat} (hz : min ((clz 32 y : Nat) : Int) 15 = z) (hz15 : z ≤ 15)
+    (hy : 0 ≤ y) (hyx : y ≤ x) (hy1 : y * 2 ^ z < 2 ^ 32) (hx1 : x + (2 ^ (15 - z) - 1) < 2 ^ 32) :
+    divi m y x =
       if (x + (2 ^ (15 - z) - 1)) / 2 ^ (16 - z) = 0 then .ok 0
-      else .ok (y * 2 ^ z / ((x + (2 ^ (15 - z) - 1)) / 2 ^ (16 - z)) * 2 ^ 15 + 2 ^ 14) := by
+      else .ok (min (y * 2 ^ z / ((x + (2 ^ (15 - z) - 1)) / 2 ^ (16 - z))) (2 ^ 16) * 2 ^ 15 + 2 ^ 14) := by
   have hd : decide (y ≤ x) = true := by simpa using hyx
   have e1 : ((15:Int) - z).toNat = 15 - z := by omega
   have e2 : ((16:Int) - z).toNat = 16 - z := by omega
   have e3 : (z : Int).toNat = z := by omega
   have hp := two_pow_pos (15 - z)
   have hx0 : 0 ≤ x + (2 ^ (15 - z) - 1) := by omega
-  simp only [divi, hz, dbgAssert, hd, if_true, e1, e2, e3, shr]
-  rw [arithU_ok_of_in (x := x + (2 ^ (15 - z) - 1)) (by rw [inU_iff]; exact ⟨hx0, hx1⟩)]
-  simp only [bind, Except.bind]
   have hw : wrapU 32 (y * 2 ^ z) = y * 2 ^ z := by
     unfold wrapU; exact Int.emod_eq_of_lt (Int.mul_nonneg hy (Int.le_of_lt (two_pow_pos z))) hy1
-  rw [hw]
-  split
-  · rfl
-  · have q0 : 0 ≤ y * 2 ^ z / ((x + (2 ^ (15 - z) - 1)) / 2 ^ (16 - z)) :=
-      Int.ediv_nonneg (Int.mul_nonneg hy (Int.le_of_lt (two_pow_pos z)))
-        (Int.ediv_nonneg hx0 (Int.le_of_lt (two_pow_pos _)))
-    have hw2 : wrapU 32 (y * 2 ^ z / ((x + (2 ^ (15 - z) - 1)) / 2 ^ (16 - z)) * 2 ^ 15) =
-        y * 2 ^ z / ((x + (2 ^ (15 - z) - 1)) / 2 ^ (16 - z)) * 2 ^ 15 := by
-      unfold wrapU; exact Int.emod_eq_of_lt (by omega) (by omega)
-    rw [hw2]
-    exact arithU_ok_of_in (by rw [inU_iff]; omega)
+  have q0 : 0 ≤ y * 2 ^ z / ((x + (2 ^ (15 - z) - 1)) / 2 ^ (16 - z)) :=
+    Int.ediv_nonneg (Int.mul_nonneg hy (Int.le_of_lt (two_pow_pos z)))
+      (Int.ediv_nonneg hx0 (Int.le_of_lt (two_pow_pos _)))
+  have hw2 : wrapU 32 (min (y * 2 ^ z / ((x + (2 ^ (15 - z) - 1)) / 2 ^ (16 - z))) (2 ^ 16) * 2 ^ 15) =
+      min (y * 2 ^ z / ((x + (2 ^ (15 - z) - 1)) / 2 ^ (16 - z))) (2 ^ 16) * 2 ^ 15 := by
+    unfold wrapU; exact Int.emod_eq_of_lt (by omega) (by omega)
+  cases m <;>
+  · simp only [divi, hz, dbgAssert, hd, if_true, e1, e2, e3, shr]
+    rw [arithU_ok_of_in (x := x + (2 ^ (15 - z) - 1)) (by rw [inU_iff]; exact ⟨hx0, hx1⟩)]
+    simp only [bind, Except.bind]
+    rw [hw]
+    split
+    · rfl
+    · rw [hw2]
+      exact arithU_ok_of_in (by rw [inU_iff]; omega)
 
 theorem clz32_min_small {y : Int} (hy : 0 ≤ y) (hy17 : y < 2^17) :
     min ((clz 32 y : Nat) : Int) 15 = (15 : Nat) := by
@@ -79,26 +80,19 @@ theorem clz32_min_big {y : Int} {L : Nat} (hL : 17 ≤ L) (h0 : (2:Int)^L ≤ y)
   rw [hc]; omega
 
 /-- small numerators (`y < 2^17`, shift 15): the divisor is `x/2` rounded down -/
-theorem divi_small {y x : Int} (hy : 0 ≤ y) (hyx : y ≤ x) (hy17 : y < 2^17) (hx : x < 2^31) :
-    divi .checked y x =
-      if x / 2 = 0 then .ok 0 else .ok (y * 2^15 / (x / 2) * 2^15 + 2^14) := by
-  have h := divi_of_z (clz32_min_small hy hy17) (by omega) hy hyx (by omega) (by omega) (by
-    simp only [show 15 - 15 = 0 from rfl, show 16 - 15 = 1 from rfl]
-    by_cases h0 : x / 2 = 0
-    · have : (x + (2 ^ 0 - 1)) / 2 ^ 1 = 0 := by omega
-      rw [this]; simp
-    · have hh : 0 < (x + (2 ^ 0 - 1)) / 2 ^ 1 := by omega
-      have := Int.ediv_le_of_le_mul (a := y * 2 ^ 15) (b := 98304) hh (by omega)
-      omega)
+theorem divi_small (m : Mode) {y x : Int} (hy : 0 ≤ y) (hyx : y ≤ x) (hy17 : y < 2^17) (hx : x < 2^31) :
+    divi m y x =
+      if x / 2 = 0 then .ok 0 else .ok (min (y * 2^15 / (x / 2)) (2 ^ 16) * 2^15 + 2^14) := by
+  have h := divi_of_z m (clz32_min_small hy hy17) (by omega) hy hyx (by omega) (by omega)
   rw [h]
   simp only [show 15 - 15 = 0 from rfl, show 16 - 15 = 1 from rfl]
   have : (x + (2 ^ 0 - 1)) / 2 ^ 1 = x / 2 := by omega
   rw [this]
 
-/-- large numerators (`2^17 ≤ y`): shift `z = clz y ∈ [1,14]`, the quotient field is at most `2^16 + 1` -/
+/-- large numerators (`2^17 ≤ y`): shift `z = clz y ∈ [1,14]`, the divisor is at least `2^15` -/
 theorem divi_big_z (z : Nat) (hz1 : 1 ≤ z) (hz2 : z ≤ 14) {y x : Int}
     (h0 : (2:Int) ^ (31 - z) ≤ y) (h1 : y < 2 ^ (32 - z)) (hyx : y ≤ x) (hx : x < 2 ^ 31) :
-    ∃ q : Int, divi .checked y x = .ok (q * 2 ^ 15 + 2 ^ 14) ∧ 0 ≤ q ∧ q ≤ 2 ^ 16 + 1 := by
+    ∃ q : Int, (∀ m, divi m y x = .ok (q * 2 ^ 15 + 2 ^ 14)) ∧ 0 ≤ q ∧ q ≤ 2 ^ 16 := by
   have hz : min ((clz 32 y : Nat) : Int) 15 = (z : Nat) := by
     have := clz32_min_big (y := y) (L := 31 - z) (by omega) h0
       (by rwa [show 31 - z + 1 = 32 - z by omega])
@@ -111,40 +105,30 @@ theorem divi_big_z (z : Nat) (hz1 : 1 ≤ z) (hz2 : z ≤ 14) {y x : Int}
     have a2 : x + (2 ^ (15 - z) - 1) < 2 ^ 32 := by subst h; simp only [Nat.reduceSub]; omega
     have a3 : (2:Int) ^ 15 ≤ (x + (2 ^ (15 - z) - 1)) / 2 ^ (16 - z) := by
       subst h; simp only [Nat.reduceSub] at *; omega
-    have a4 : y * 2 ^ z < (2 ^ 16 + 2) * ((x + (2 ^ (15 - z) - 1)) / 2 ^ (16 - z)) := by
-      subst h; simp only [Nat.reduceSub] at *; omega
-    have a5 := Int.ediv_lt_of_lt_mul (by omega) a4
-    have hd := divi_of_z hz (by omega) hy hyx a1 a2 (by omega)
-    rw [if_neg (by omega)] at hd
-    exact ⟨_, hd, Int.ediv_nonneg (Int.mul_nonneg hy (Int.le_of_lt (two_pow_pos z))) (by omega), by omega⟩
+    have hd : ∀ m, divi m y x = .ok (min (y * 2 ^ z / ((x + (2 ^ (15 - z) - 1)) / 2 ^ (16 - z))) (2 ^ 16)
+        * 2 ^ 15 + 2 ^ 14) := fun m => by
+      rw [divi_of_z m hz (by omega) hy hyx a1 a2, if_neg (by omega)]
+    have q0 : 0 ≤ y * 2 ^ z / ((x + (2 ^ (15 - z) - 1)) / 2 ^ (16 - z)) :=
+      Int.ediv_nonneg (Int.mul_nonneg hy (Int.le_of_lt (two_pow_pos z))) (by omega)
+    exact ⟨_, hd, by omega, by omega⟩
 
-/-- The quotient field of `divi` for every first-octant operand pair `0 ≤ y ≤ x < 2^31`.
-    `x ≤ 1` gives `0`; otherwise the result is `q·2^15 + 2^14` with `q ≤ 2^16 + 1`, except on the
-    diagonal at odd `x < 2^17`, where the divisor `x/2` is rounded down and `q = 2^16 + ⌊2^15 / ((x-1)/2)⌋`
-    (this is `2^16 + 2^15` at `x = 3`: the defect).  `y = 0` gives `q = 0`. -/
+/-- The quotient field of `divi` (the same in both build modes) for every first-octant operand pair `0 ≤ y ≤ x < 2^31`:
+    no panic; `x ≤ 1` gives `0`; otherwise the result is `q·2^15 + 2^14` with `0 ≤ q ≤ 2^16` (the clamp added
+    by the `fix:` commit; before it `(3,3)` gave `q = 1.5·2^16`), and `y = 0` gives `q = 0`. -/
 theorem divi_spec {y x : Int} (hy : 0 ≤ y) (hyx : y ≤ x) (hx : x < 2 ^ 31) :
-    (x ≤ 1 ∧ divi .checked y x = .ok 0) ∨
-    (2 ≤ x ∧ ∃ q : Int, divi .checked y x = .ok (q * 2 ^ 15 + 2 ^ 14) ∧ 0 ≤ q ∧ (y = 0 → q = 0) ∧
-      (q ≤ 2 ^ 16 + 1 ∨
-        (y = x ∧ x % 2 = 1 ∧ x < 2 ^ 17 ∧ q = 2 ^ 16 + 2 ^ 15 / ((x - 1) / 2)))) := by
+    (x ≤ 1 ∧ ∀ m, divi m y x = .ok 0) ∨
+    (2 ≤ x ∧ ∃ q : Int, (∀ m, divi m y x = .ok (q * 2 ^ 15 + 2 ^ 14)) ∧ 0 ≤ q ∧ q ≤ 2 ^ 16 ∧
+      (y = 0 → q = 0)) := by
   by_cases hy17 : y < 2 ^ 17
-  · have hd := divi_small hy hyx hy17 hx
-    by_cases h0 : x / 2 = 0
-    · left; rw [if_pos h0] at hd; exact ⟨by omega, hd⟩
-    · right; rw [if_neg h0] at hd
-      refine ⟨by omega, _, hd, Int.ediv_nonneg (by omega) (by omega), ?_, ?_⟩
-      · intro h; subst h; simp
-      have hh : 0 < x / 2 := by omega
-      by_cases hdiag : y = x ∧ x % 2 = 1
-      · right
-        obtain ⟨rfl, hodd⟩ := hdiag
-        refine ⟨rfl, hodd, hy17, ?_⟩
-        have e1 : (y - 1) / 2 = y / 2 := by omega
-        have e2 : y * 2 ^ 15 = 2 ^ 15 + 2 ^ 16 * (y / 2) := by omega
-        rw [e1, e2, Int.add_mul_ediv_right _ _ (by omega)]; omega
-      · left
-        have := Int.ediv_le_of_le_mul (a := y * 2 ^ 15) (b := 2 ^ 16) hh (by omega)
-        omega
+  · by_cases h0 : x / 2 = 0
+    · left
+      exact ⟨by omega, fun m => by rw [divi_small m hy hyx hy17 hx, if_pos h0]⟩
+    · right
+      have hd : ∀ m, divi m y x = .ok (min (y * 2 ^ 15 / (x / 2)) (2 ^ 16) * 2 ^ 15 + 2 ^ 14) :=
+        fun m => by rw [divi_small m hy hyx hy17 hx, if_neg h0]
+      have q0 : 0 ≤ y * 2 ^ 15 / (x / 2) := Int.ediv_nonneg (by omega) (by omega)
+      refine ⟨by omega, _, hd, by omega, by omega, ?_⟩
+      intro h; subst h; simp; omega
   · right
     obtain ⟨L, hc, hl, hu⟩ := clz32_pos (y := y) (by omega)
     have hL17 : 17 ≤ L := by
@@ -157,6 +141,6 @@ theorem divi_spec {y x : Int} (hy : 0 ≤ y) (hyx : y ≤ x) (hx : x < 2 ^ 31) :
       · exact h
     obtain ⟨q, hq, q0, q1⟩ := divi_big_z (31 - L) (by omega) (by omega) (y := y) (x := x)
       (by rwa [show 31 - (31 - L) = L by omega]) (by rwa [show 32 - (31 - L) = L + 1 by omega]) hyx hx
-    exact ⟨by omega, q, hq, q0, by omega, Or.inl q1⟩
+    exact ⟨by omega, q, hq, q0, q1, by omega⟩
 
 end Idsp
